@@ -45,6 +45,7 @@ func (p *Pool) reg() {
 }
 
 func (p *Pool) Get() any {
+	vrt.PointPool("sync.Pool.Get")
 	p.reg()
 	if n := len(p.items); n > 0 {
 		x := p.items[n-1]
@@ -58,6 +59,7 @@ func (p *Pool) Get() any {
 }
 
 func (p *Pool) Put(x any) {
+	vrt.PointPool("sync.Pool.Put")
 	p.reg()
 	if x != nil {
 		p.items = append(p.items, x)
